@@ -73,7 +73,7 @@ def run(ctx):
     res["coverage"]["pipeline_model_mismatches"] = len(mism)
     res["coverage"]["traces_validated_against_impl"] = n - len(mism)
     res["coverage"]["rule"] += "; every stage result also compared dump-for-dump with the Lean model of the pipeline"
-    if mism and not res["violations"]:
+    if mism:
         succ, stage, why = min(mism, key=lambda m: (len(m[0]), m[0]))
         path = common.write_replay("C02", {"property": "C02", "kind": "correspondence-broken",
                                            "correspondence": "Scfg.Model.Pipeline vs numba_scfg.core.transformations",
